@@ -37,6 +37,7 @@ pub fn emit(out: &mut Out, worker: &mut Worker, text: &str, rng: &mut Rng, thoro
     let mut n_rec = 0u64;
     let mut n_slow = 0u64;
     let mut n_hang = 0u64;
+    let mut n_cost = 0u64;
     let rec_budget: u64 = if thorough { 40 } else { 10 };
     for (k, w) in inputs.iter().enumerate() {
         if !lr_terminates(&g, &st, w, 400 * (w.len() + 2)) {
@@ -47,6 +48,30 @@ pub fn emit(out: &mut Out, worker: &mut Worker, text: &str, rng: &mut Rng, thoro
             continue;
         }
         let r = guarded(std::panic::AssertUnwindSafe(|| parse_actions(&g, &st, w, RecoveryKind::None, None)));
+        // C04: recovery stays switched off whatever else is set on the builder — token costs, in either
+        // order of the two setters (the harness alternates it with the input's length); in the killable
+        // worker, because a recoverer that runs against the setting has no bound of its own
+        if prop == "C04" && w.len() <= 8 && n_cost < 2 * rec_budget {
+            if let Ok(po) = &r {
+                n_cost += 1;
+                let unit: Vec<u8> = vec![1; usize::from(g.tokens_len())];
+                match worker.parse(text, w, false, Some(&unit), std::time::Duration::from_millis(2500)) {
+                    WResult::Ok(p2) => {
+                        let same = p2.tree.is_some() == po.tree.is_some()
+                            && p2.errors.len() == po.errors.len()
+                            && p2.errors.iter().all(|e| e.repairs.is_empty());
+                        if !same {
+                            hfail.get_or_insert(format!(
+                                "recovery off with token costs set: value={} errors={} repair sequences={} on {:?}; without costs value={} errors={}",
+                                p2.tree.is_some(), p2.errors.len(), p2.errors.iter().map(|e| e.repairs.len()).sum::<usize>(), w, po.tree.is_some(), po.errors.len()));
+                        }
+                    }
+                    WResult::Hang => { hfail.get_or_insert(format!("recovery off with token costs set: the parse does not return on {:?}", w)); }
+                    WResult::Panic(m) => { hfail.get_or_insert(format!("recovery off with token costs set: panic on {:?}: {}", w, m)); }
+                    WResult::NoGrammar => {}
+                }
+            }
+        }
         match r {
             Err(e) => {
                 ilines.push(format!("{} panic", k));
